@@ -22,10 +22,16 @@ Open Scope Z_scope.
 (* ------------------------------------------------------------------ floats and cells *)
 Inductive f64 : Type := FInt (z : Z) | FFrac (m : Z) (e : positive) | FNegZero | FNaN | FPInf | FNInf.
 
+(* a component of a tuple label (a level value of a MultiIndex): int or str *)
+Inductive atom : Type := AInt (z : Z) | AStr (s : string).
+Definition atom_eqb (a b : atom) : bool :=
+  match a, b with AInt x, AInt y => x =? y | AStr x, AStr y => String.eqb x y | _, _ => false end.
+
 (* a Python object in a cell or a span label *)
 Inductive cell : Type :=
 | CNone | CFlt (f : f64) | CInt (z : Z) | CBool (b : bool) | CStr (s : string)
-| CTup (a b : Z) | CPer (freq ord : Z) | CTs (ns : Z).          (* labels only: tuple, pandas Period, pandas Timestamp *)
+| CTup (a b : atom) | CPer (freq ord : Z) | CTs (ns : Z) | CTd (ns : Z).
+  (* labels only: 2-tuple (a row of a two-level MultiIndex), pandas Period, Timestamp, Timedelta *)
 
 Definition f64_eqb (a b : f64) : bool :=
   match a, b with
@@ -41,9 +47,10 @@ Definition cell_eqb (a b : cell) : bool :=
   | CInt x, CInt y => x =? y
   | CBool x, CBool y => Bool.eqb x y
   | CStr x, CStr y => String.eqb x y
-  | CTup a b, CTup c d => (a =? c) && (b =? d)
+  | CTup a b, CTup c d => atom_eqb a c && atom_eqb b d
   | CPer f o, CPer f' o' => (f =? f') && (o =? o')
   | CTs x, CTs y => x =? y
+  | CTd x, CTd y => x =? y
   | _, _ => false
   end.
 
@@ -78,8 +85,9 @@ Definition f64_nonzero (f : f64) : bool :=
 
 (* ------------------------------------------------------------------ dtypes *)
 Inductive ndt : Type := NFloat | NInt | NBool | NStr | NObj.               (* NumPy dtype kind of a model series *)
-Inductive pdt : Type := PFloat64 | PInt64 | PUInt64 | PBool | PStrDt | PObject | PPeriod (freq : Z) | PDatetime.
-Inductive ikind : Type := KRange | KIndex | KPeriodIndex | KDatetimeIndex.
+Inductive pdt : Type := PFloat64 | PInt64 | PUInt64 | PBool | PStrDt | PObject | PPeriod (freq : Z) | PDatetime | PTimedelta.
+(* the class of the pandas index object: the tag from_dataframe's isinstance test looks at *)
+Inductive ikind : Type := KRange | KIndex | KPeriodIndex | KDatetimeIndex | KMultiIndex | KTimedeltaIndex.
 Inductive skind : Type := SRange | SList | STuple | SNdarray | SPandas (k : ikind) (d : pdt).
 
 Definition ndt_eqb (a b : ndt) : bool :=
@@ -106,6 +114,7 @@ Definition is_flt (c : cell) : bool := match c with CFlt _ => true | _ => false 
 Definition is_str (c : cell) : bool := match c with CStr _ => true | _ => false end.
 Definition is_bool (c : cell) : bool := match c with CBool _ => true | _ => false end.
 Definition is_ts (c : cell) : bool := match c with CTs _ => true | _ => false end.
+Definition is_td (c : cell) : bool := match c with CTd _ => true | _ => false end.
 Definition is_per (f : Z) (c : cell) : bool := match c with CPer f' _ => f =? f' | _ => false end.
 Definition cell_int64 (c : cell) : bool := match c with CInt z => in_int64 z | _ => false end.
 Definition cell_uint64 (c : cell) : bool := match c with CInt z => in_uint64 z | _ => false end.
@@ -137,9 +146,10 @@ Definition pd_infer (cs : list cell) : option (pdt * list cell) :=
       (* an int outside int64 next to None / floats: float64 or object depending on the order of the cells — not tabulated *)
       (if existsb out_int64 cs then None else Some (PFloat64, map to_float_cell cs))
     else if forallb is_ts cs then Some (PDatetime, cs)
+    else if forallb is_td cs then Some (PTimedelta, cs)
     else match c0 with
          | CPer f _ => if forallb (is_per f) cs then Some (PPeriod f, cs) else None
-         | _ => if existsb is_ts cs || existsb is_per_any cs then None else Some (PObject, cs)
+         | _ => if existsb is_ts cs || existsb is_td cs || existsb is_per_any cs then None else Some (PObject, cs)
          end
   end.
 
@@ -155,6 +165,7 @@ Definition pd_index (s : span) : option pindex :=
     match pd_infer (splabels s) with
     | Some (PPeriod f, cs) => Some (mkIndex KPeriodIndex (PPeriod f) cs)
     | Some (PDatetime, cs) => Some (mkIndex KDatetimeIndex PDatetime cs)
+    | Some (PTimedelta, cs) => Some (mkIndex KTimedeltaIndex PTimedelta cs)
     | Some (d, cs) => Some (mkIndex KIndex d cs)
     | None => None
     end
@@ -349,9 +360,12 @@ Fixpoint has_dup (l : list string) : bool :=
 (* names of __init__ parameters: a column called like one of them is passed as that parameter *)
 Definition init_params : list string := ["span"; "strict"; "dtype"; "default_value"; "engine"; "self"; "cls"; "data"].
 
+(* isinstance(index, (DatetimeIndex, MultiIndex, PeriodIndex, TimedeltaIndex)): the four-way test of from_dataframe *)
 Definition is_time_index (k : ikind) : bool :=
-  match k with KPeriodIndex | KDatetimeIndex => true | _ => false end.
+  match k with KDatetimeIndex | KMultiIndex | KPeriodIndex | KTimedeltaIndex => true | KRange | KIndex => false end.
 
+(* one of the four kinds: the pandas index object itself becomes the span; anything else: list(index).
+   Either way the labels keep their order and multiplicity — nothing is sorted, nothing is dropped *)
 Definition span_of_index (ix : pindex) : span :=
   if is_time_index (ikd ix) then mkSpan (SPandas (ikd ix) (idt ix)) (ilabels ix)
   else mkSpan SList (ilabels ix).
